@@ -52,10 +52,13 @@ package crypto
 //@   assigns argon_time, argon_mem, argon_threads, argon_keylen, argon_saltlen, inferred
 
 // Version 1 is keccak256, versions 2, 3, 4 are argon2id with 1, 16, 32 KiB; anything else panics.
+// Ghost lastvh: the digest (as a big-endian integer) the most recent VersionHash call returned.
+//@ ghost lastvh Int
 //@ func VersionHash
+//@   axiom lastvh == bigofbytes(arr(result), off(result), 32)
 //@   requires[C14] v >= 1 && v <= 4
 //@   ensures[C14] @algo (v == 2 ==> argon_mem == 1) && (v == 3 ==> argon_mem == 16) && (v == 4 ==> argon_mem == 32) && (v == 1 ==> argon_mem == old(argon_mem))
 //@   ensures[C14] @len len(result) == 32 && fresh(result)
 //@   ensures[C14] @value oneseed(data) ==> bigofbytes(arr(result), off(result), 32) == vhash(v, seedw(data[0], 0), seedw(data[0], 8), seedw(data[0], 16), seedw(data[0], 24), seedw(data[0], 32))
-//@   assigns argon_time, argon_mem, argon_threads, argon_keylen, argon_saltlen, inferred
+//@   assigns argon_time, argon_mem, argon_threads, argon_keylen, argon_saltlen, lastvh, inferred
 //@   nopanic[C14]
